@@ -1,7 +1,8 @@
 """C01 — atom arrays and stacks stay coherent under any sequence of operations.
 
 S1  TLC: specs/C01/AtomContainer.tla (reference list-of-atoms model, all operations of the
-    property), invariants Coherent / RefusalIsNoOp / BondsFollowAtoms.
+    property, every index in every form numpy accepts), invariants Coherent / RefusalIsNoOp /
+    BondsFollowAtoms.
 S2  every transition of the state graph replayed against real AtomArray / AtomArrayStack
     objects: after each call the real object is projected (annotations, coordinates of every
     model, box, bonds, optional annotations) and compared with the spec state, and compared
@@ -970,6 +971,6 @@ def replay(record):
 
 MANIFEST = {
     "technique": "TLA+ reference model of AtomArray/AtomArrayStack (specs/C01) model-checked by TLC; every transition of the state graph replayed into real objects (projection + public == against a from-scratch reference object); recorded random histories validated by TLC",
-    "level_text": "The specification is the property's list-of-atoms reference model: atoms with identity, per-model coordinate cells, per-model boxes, a positional bond mapping and optional annotations, with one operator per public operation (1-D and 2-D indexing with every index kind incl. negatives and Ellipsis, concatenation in both orders with operands lacking bonds/box/annotations, stack(), repeat(), from_template(), atom and model deletion, element and model assignment, annotation / bonds / box edits, copy and in-place mutation of copies). TLC explores every call on 56 constructed objects (<= 3 atoms, <= 2 models, with and without bonds / box / optional annotations) exhaustively and checks Coherent, RefusalIsNoOp and BondsFollowAtoms; all transitions are executed against the real classes, comparing the full projection, the outcome class, returned atoms, and the public == against an object rebuilt from the expected state with array()/stack(); longer histories on bigger objects are recorded and re-computed by TLC.",
-    "level_note": "Bounded exhaustive part: construction + 1 call (quick) / + 2 calls (thorough), <= 4 atoms, <= 2 models. Annotation dtypes covered: int, float, bool, str. View aliasing is not modelled. Trusted: TLC, TLA+ value parser, numpy, the projection function.",
+    "level_text": "The specification is the property's list-of-atoms reference model: atoms with identity, per-model coordinate cells, per-model boxes, a positional bond mapping and optional annotations, with one operator per public operation (1-D and 2-D indexing with every index kind incl. negatives and Ellipsis, every index and every integer position of deletion / assignment in every FORM numpy accepts - Python int, numpy integer scalars int8..uint64, zero-dimensional integer array, list or integer ndarray of every dtype, bool ndarray or list of bools, slices with numpy bounds - in every tuple position, concatenation in both orders with operands lacking bonds/box/annotations, stack(), repeat(), from_template(), atom and model deletion, element and model assignment, annotation / bonds / box edits, copy and in-place mutation of copies). TLC explores every call on 56 constructed objects (<= 3 atoms, <= 2 models, with and without bonds / box / optional annotations) exhaustively and checks Coherent, RefusalIsNoOp and BondsFollowAtoms; all transitions are executed against the real classes, comparing the full projection, the outcome class, returned atoms, and the public == against an object rebuilt from the expected state with array()/stack(); longer histories on bigger objects are recorded and re-computed by TLC.",
+    "level_note": "Bounded exhaustive part: construction + 1 call (quick: core index forms; thorough: all forms) / + 2 calls (thorough, default forms), <= 4 atoms, <= 2 models. Annotation dtypes covered: int, float, bool, str. View aliasing is not modelled. Trusted: TLC, TLA+ value parser, numpy, the projection function.",
 }
